@@ -2,9 +2,9 @@
 
 Inside a forked child, every file-system event below ROOT is numbered:
   os.mkdir / os.remove (unlink) / os.rmdir / os.rename (also os.replace)    — via sys.addaudithook
-  open-for-write (creation/truncation), every write() call, close          — via a wrapper returned by the patched
-                                                                              io.open / builtins.open (unbuffered, so the
-                                                                              kernel state equals what the program wrote)
+  open-for-write (creation/truncation), every write that reaches the kernel, close — via a wrapper returned by the
+                                                                              patched io.open / builtins.open that buffers
+                                                                              like io.BufferedWriter (8 KiB, flush, close)
 When the counter reaches crash_at=(k, fraction) the child dies with os._exit(77) *before* performing event k (for a write:
 after writing the first `fraction` of the bytes). Process death model: completed writes survive, nothing is reordered.
 """
@@ -45,8 +45,13 @@ def _die():
     os._exit(CRASH_EXIT)
 
 
+BUFSIZE = 8192  # io.DEFAULT_BUFFER_SIZE: what open() gives a regular file
+
+
 class WFile:
-    """unbuffered write-only file object that reports open/write/close events"""
+    """write-only file object that reports open/write/close events. It buffers like io.BufferedWriter: data reaches the
+    kernel (one numbered `write` event) only when the buffer is full, on flush() and on close() — so the kernel state at a
+    crash point equals what a real process would have written by then (a small pickle is written at close, not at dump)"""
 
     def __init__(self, path, mode):
         self.path, self.mode = path, mode
@@ -56,21 +61,34 @@ class WFile:
         self.fd = os.open(path, flags, 0o644)
         self.closed = False
         self.name = path
+        self.buf = bytearray()
 
-    def write(self, data):
-        b = data.encode() if isinstance(data, str) else bytes(data)
+    def _emit(self, b):
+        b = bytes(b)
+        if not b:
+            return
         if Ctl.event("write", self.path, len(b)):
             frac = Ctl.crash_at[1]
             os.write(self.fd, b[: int(len(b) * frac)])
             _die()
         os.write(self.fd, b)
+
+    def write(self, data):
+        b = data.encode() if isinstance(data, str) else bytes(data)
+        self.buf += b
+        while len(self.buf) >= BUFSIZE:
+            chunk, self.buf = self.buf[:BUFSIZE], self.buf[BUFSIZE:]
+            self._emit(chunk)
         return len(data)
 
     def flush(self):
-        pass
+        if self.buf:
+            b, self.buf = self.buf, bytearray()
+            self._emit(b)
 
     def close(self):
         if not self.closed:
+            self.flush()
             if Ctl.event("close", self.path):
                 _die()
             os.close(self.fd)
